@@ -153,14 +153,17 @@ func fileClass(p string) string {
 
 const probeGroup = "c33-probe"
 
-// recoverPoint restarts kfake on one post-crash filesystem and judges it:
+// recoverPoint restarts kfake on one post-crash filesystem and judges it, on
+// two copies of that filesystem:
 //
-//	start 1 (crash recovery): observe O1, judge against the ack journal; then
-//	  one probe batch per partition and one probe commit are sent and acked,
-//	  O1' is observed and the filesystem is copied (K = process kill now);
-//	clean Close, start 2: must observe exactly O1' (idempotent restart);
-//	start 3 on K: the logs and commits of O1' (old data and probes) are there.
+//	copy 1: start 1 (crash recovery): observe O1, judge against the ack
+//	  journal; clean Close; start 2 must observe exactly O1 (idempotence);
+//	copy 2: start 1' (the same recovery); one probe batch per partition and
+//	  one probe commit are sent and acked, O1' is observed and the
+//	  filesystem is copied (K = a process kill at this moment); start 3 on
+//	  K must have the logs and commits of O1' (old data and probes).
 func recoverPoint(r *vh.Run, run *wlRun, j int, ms modeState) (fails []failure, c judgeCounts, ok bool) {
+	second := ms.st.cut(nil) // copy 2, taken before recovery touches copy 1
 	fsys := fsFromState(ms.st, false)
 	n, err, panicked := startNode(fsys, run.Sync)
 	if panicked != nil {
@@ -183,50 +186,7 @@ func recoverPoint(r *vh.Run, run *wlRun, j int, ms modeState) (fails []failure, 
 	}
 	fails, c = judge(run, j, o1)
 
-	// the recovered cluster must keep working: probes
-	probed := 0
-	var commitAt *tp
-	for _, name := range sortedKeys(o1.Topics) {
-		t := o1.Topics[name]
-		for p := 0; p < t.Parts; p++ {
-			key := tp{name, int32(p)}
-			if v := o1.Parts[key]; v == nil || v.DecodeErr != "" {
-				continue
-			}
-			batch := buildBatch(-1, -1, -1, false, time.Now().UnixMilli(), []rec{{Value: []byte(fmt.Sprintf("probe-%s-%d", name, p))}})
-			ec, base, err := n.produce(ctx, t, int32(p), batch)
-			if err != nil {
-				n.stop()
-				inconclusive("probe produce", err)
-				return fails, c, false
-			}
-			if ec != 0 || base != o1.Parts[key].HWM {
-				fails = append(fails, failure{"recovered cluster mishandles produce", map[string]any{"partition": fmt.Sprintf("%s/%d", name, p), "error": kerrName(ec), "base_offset": base, "hwm_before": o1.Parts[key].HWM}})
-				continue
-			}
-			probed++
-			if commitAt == nil {
-				k := key
-				commitAt = &k
-			}
-		}
-	}
-	if commitAt != nil {
-		if err := n.offsetCommit(ctx, probeGroup, "", -1, commitAt.Topic, commitAt.Part, 424242, "probe"); err != nil {
-			fails = append(fails, failure{"recovered cluster mishandles offset commit", map[string]any{"error": err.Error()}})
-			commitAt = nil
-		}
-	}
-	c.Probes = probed
-	o1p, oerr := observe(ctx, n, groups, run.Txids, false)
-	if oerr != nil {
-		n.stop()
-		inconclusive("observing the recovered cluster after the probes", oerr)
-		return fails, c, false
-	}
-	killState := fsys.deepCopy()
-
-	// a clean restart must be idempotent
+	// a clean restart of the recovered cluster must be idempotent
 	n.stop()
 	n2, err, panicked := startNode(fsys, run.Sync)
 	if panicked != nil || err != nil {
@@ -239,11 +199,65 @@ func recoverPoint(r *vh.Run, run *wlRun, j int, ms modeState) (fails []failure, 
 		inconclusive("observing after the second restart", oerr)
 		return fails, c, false
 	}
-	for _, d := range diffObs(o1p, o2, nil) {
+	for _, d := range diffObs(o1, o2, nil) {
 		fails = append(fails, failure{"second clean restart not idempotent: " + d.Class, map[string]any{"difference": d.Detail}})
 	}
 
-	// a process kill right after the probes were acked loses nothing
+	// the recovered cluster must keep working: probes, then a process kill
+	fsys2 := fsFromState(second, false)
+	nb, err, panicked := startNode(fsys2, run.Sync)
+	if panicked != nil || err != nil {
+		fails = append(fails, failure{"the same recovery fails the second time", map[string]any{"error": fmt.Sprint(err), "panic": fmt.Sprint(panicked)}})
+		return fails, c, true
+	}
+	ob, oerr := observe(ctx, nb, groups, run.Txids, false)
+	if oerr != nil {
+		nb.stop()
+		inconclusive("observing the recovered cluster (copy 2)", oerr)
+		return fails, c, false
+	}
+	probed := 0
+	var commitAt *tp
+	for _, name := range sortedKeys(ob.Topics) {
+		t := ob.Topics[name]
+		for p := 0; p < t.Parts; p++ {
+			key := tp{name, int32(p)}
+			if v := ob.Parts[key]; v == nil || v.DecodeErr != "" {
+				continue
+			}
+			batch := buildBatch(-1, -1, -1, false, time.Now().UnixMilli(), []rec{{Value: []byte(fmt.Sprintf("probe-%s-%d", name, p))}})
+			ec, base, err := nb.produce(ctx, t, int32(p), batch)
+			if err != nil {
+				nb.stop()
+				inconclusive("probe produce", err)
+				return fails, c, false
+			}
+			if ec != 0 || base != ob.Parts[key].HWM {
+				fails = append(fails, failure{"recovered cluster mishandles produce", map[string]any{"partition": fmt.Sprintf("%s/%d", name, p), "error": kerrName(ec), "base_offset": base, "hwm_before": ob.Parts[key].HWM}})
+				continue
+			}
+			probed++
+			if commitAt == nil {
+				k := key
+				commitAt = &k
+			}
+		}
+	}
+	if commitAt != nil {
+		if err := nb.offsetCommit(ctx, probeGroup, "", -1, commitAt.Topic, commitAt.Part, 424242, "probe"); err != nil {
+			fails = append(fails, failure{"recovered cluster mishandles offset commit", map[string]any{"error": err.Error()}})
+		}
+	}
+	c.Probes = probed
+	o1p, oerr := observe(ctx, nb, groups, run.Txids, false)
+	if oerr != nil {
+		nb.stop()
+		inconclusive("observing the recovered cluster after the probes", oerr)
+		return fails, c, false
+	}
+	killState := fsys2.deepCopy()
+	nb.stop()
+
 	n3, err, panicked := startNode(fsFromState(killState, false), run.Sync)
 	if panicked != nil || err != nil {
 		fails = append(fails, failure{"restart after a process kill of the recovered cluster fails", map[string]any{"error": fmt.Sprint(err), "panic": fmt.Sprint(panicked)}})
@@ -321,7 +335,7 @@ func TestCheck(t *testing.T) {
 	for i := 0; i < nNoSync; i++ {
 		specs = append(specs, wlSpec{Name: fmt.Sprintf("nosync%d", i), Sync: false, Ops: r.Pick(25, 50), MidRestart: i%2 == 1, DeleteTopic: true})
 	}
-	specs = append(specs, wlSpec{Name: "cleanonly", Sync: true, Ops: r.Pick(30, 60), MidRestart: true, DelRecords: true})
+	specs = append(specs, wlSpec{Name: "cleanonly", Sync: true, Ops: r.Pick(30, 60), MidRestart: true, DelRecords: true, DeleteTopic: true, StaleTxn: true})
 
 	runs := make([]*wlRun, len(specs))
 	var mu sync.Mutex
@@ -335,6 +349,9 @@ func TestCheck(t *testing.T) {
 				return
 			}
 			run.NoCrash = true // an incomplete reference history is not enumerated
+		}
+		if err != nil {
+			run.Incomplete = true
 		}
 		runs[i] = run
 	})
@@ -367,10 +384,10 @@ func TestCheck(t *testing.T) {
 		for k, n := range kinds {
 			r.Count("fs_ops_"+k.String(), n)
 		}
+		if run.Incomplete {
+			exhaustive = false
+		}
 		if run.NoCrash {
-			if len(run.CleanFail) > 0 || run.Name != "cleanonly" {
-				exhaustive = false
-			}
 			continue
 		}
 		js, all := selectPrefixes(r, run, w)
@@ -484,7 +501,7 @@ func TestCheck(t *testing.T) {
 		// what failed names the signature; for losses the loss mode is part
 		// of what failed, for a non-idempotent second restart it is not
 		sig := pf.f.What
-		if !strings.HasPrefix(sig, "second clean restart not idempotent") {
+		if !strings.HasPrefix(sig, "second clean restart not idempotent") && !strings.Contains(sig, "by the recovered cluster lost at its next restart") {
 			sig = fmt.Sprintf("%s after %s crash", pf.f.What, modeNames[pf.mode])
 			if !runs[pf.w].Sync {
 				sig += " (without SyncWrites)"
@@ -523,7 +540,7 @@ func TestCheck(t *testing.T) {
 	r.Set("enumeration_wall_s", time.Since(start).Seconds())
 
 	r.Finish("fault_enumeration",
-		"one evaluation = one (workload, journal prefix j, loss mode) whose post-crash filesystem was materialised, recovered by kfake.NewCluster and judged through the protocol (plus one per clean Close -> restart comparison). Workloads: seeded sequential scripts of raw requests (plain / idempotent / transactional produce with commit, abort and one transaction left open; simple, member and transactional offset commits; topic create / delete / recreate / config change; segment.bytes 200-300 so segments roll every 2-3 batches; state.log.compact.bytes=700 so groups.log and pids.log are compacted every few entries; clean restarts inside). Loss modes: process kill (nothing lost), power loss (every file cut to its last synced length), torn write (last write, or else a seeded unsynced tail, cut at a seeded byte), partial loss (seeded subset of unsynced tails kept / dropped / cut); without SyncWrites only process kill. Loss modes whose post-crash filesystem is byte-identical to one already judged at the same prefix share its verdict and are not recovered again (counted separately). Thorough: every prefix of every workload; quick: every Sync and Rename boundary with the two prefixes before/after it plus a seeded half of the remaining prefixes. Non-trivial (distinct key workload/prefix/mode): at that prefix at least one file has unsynced bytes or a temp file awaits its rename, i.e. the crash lies inside a multi-operation update",
+		"one evaluation = one (workload, journal prefix j, loss mode[, seeded variant]) whose post-crash filesystem was materialised, recovered by kfake.NewCluster and judged through the protocol (plus one per clean Close -> restart comparison). Per crash point: start 1 must succeed and contain every acked produce / offset commit (logs are CRC-valid, contiguous prefixes of the produced history); a clean Close + start 2 must observe exactly the same state; on a second copy of the post-crash filesystem the recovered cluster acks one probe batch per partition and a probe commit, and start 3 on a copy of the filesystem taken right after the probes (process kill) must still have all logs and commits. Workloads: seeded sequential scripts of raw requests (plain / idempotent / transactional produce with commit, abort and one transaction left open; simple, member and transactional offset commits; topic create / delete / recreate / config change; segment.bytes 200-300 so segments roll every 2-3 batches; state.log.compact.bytes=700 so groups.log and pids.log are compacted every few entries; clean restarts inside). Loss modes: process kill (nothing lost), power loss (every file cut to its last synced length), torn write (last write, or else a seeded unsynced tail, cut at a seeded byte), partial loss (seeded subset of unsynced tails kept / dropped / cut; thorough: 3 seeded variants of the last two); without SyncWrites only process kill. Post-crash filesystems byte-identical to one already judged at the same prefix share its verdict and are not recovered again (counted separately). Thorough: every prefix of every workload; quick: every Sync and Rename boundary with the two prefixes before/after it plus a seeded half of the remaining prefixes. Non-trivial (distinct key workload/prefix/mode/variant): at that prefix at least one file has unsynced bytes or a temp file awaits its rename, i.e. the crash lies inside a multi-operation update",
 		"loss model: only unsynced file tails are lost (a file is cut at a length between its last synced length and its current length); create, rename, remove, mkdir and truncate are atomic and durable (kfake never fsyncs directories, so directory-entry durability is outside the model); no reordering of writes within a file, no bit corruption",
 		"the acknowledgement index is the journal length when the response was received: kfake handles requests serially and the workload is sequential; asynchronous state-log compaction can only make that index larger (weaker check)",
 		"a later acked commit supersedes an earlier one; a commit or batch whose request was sent before the crash point but not acked by it may or may not be present; data of a topic whose deletion request was sent before the crash point is not judged; the transaction marker of an acked EndTxn is judged only through prefix/contiguity of the log (dontcare when it is the missing log end); acked topic creations without acked data are not required to exist (dontcare)",
